@@ -93,7 +93,12 @@ CHECKS = {
              essential=_ALL_SCHEMAS + ["W>=2", "k>=2"] + [f + m for f in ("1.x:", "2.x:") for m in
                  ["create_track", "update", "remove_track"] + ["set_" + x for x in _SETTERS] +
                  ["create_root_crate", "create_sub_crate", "create_root_crate_after", "create_sub_crate_after", "set_name", "set_parent",
-                  "add_track(track)", "add_track(id)", "crate::remove_track", "clear_tracks", "remove_crate"]])]),
+                  "add_track(track)", "add_track(id)", "crate::remove_track", "clear_tracks", "remove_crate"]]),
+        dict(prop="C14.table", harness="table_pbt", quick=dict(count=640, workers=8), thorough=dict(count=30000, workers=16),
+             essential=_V2_SCHEMAS + ["W>=2", "k>=2"] + ["table:" + m for m in
+                 ["playlist.add", "playlist.update", "playlist.move", "playlist.remove", "entity.add_back", "entity.remove", "entity.clear",
+                  "track.add", "track.update", "track.remove", "track.set_column", "change_log.add", "information.played_indicator"]] +
+                 ["W>=2:playlist.move", "W>=2:playlist.remove", "W>=2:entity.add_back", "W>=2:track.remove"])]),
     "C15": dict(level="exploration", parts=[
         dict(prop="REG", harness="api_pbt", quick=dict(count=0, workers=1), thorough=dict(count=0, workers=1)),  # regression scenarios
         dict(prop="C15", harness="api_pbt", quick=dict(count=6000, workers=8), thorough=dict(count=250000, workers=16),
@@ -254,7 +259,10 @@ RULES = {
            "run counts the W non-read-only statements (plus COMMIT) the operation steps through the sqlite3_step shim; for each k in 1..W the "
            "state is rebuilt, the k-th such statement returns SQLITE_IOERR without executing, and the call must throw, Obs (canonical public-"
            "API dump) must equal Obs before the call, no transaction may stay open, and the same operation must then succeed. Non-trivial = "
-           "operations with W >= 2; distinct = distinct (schema, state, operation, arguments).",
+           "operations with W >= 2; distinct = distinct (schema, state, operation, arguments). Table part: the same loop over the 13 mutating calls "
+           "of the 2.x table API (playlist add / update / moving update / remove, entity add_back / remove / clear, track add / update / remove / "
+           "set_<column>, change_log add, played indicator) on a generated state of 1-3 full track rows and 2-5 nested playlists with entries; "
+           "Obs = every table-level observer, unclipped.",
     "C15": "Case = schema + optional prelude + up to 23 operations drawn from every public operation with hostile arguments: slot indices "
            "-2..10 and INT_MIN/MAX, 0..12 slot vectors, labels up to 300 bytes, NaN/inf/1e300/negative sample rates and bpm, unsorted grids "
            "with INT_MIN/INT_MAX indices, any 64-bit duration, absent/extension-less paths, ids of nonexistent tracks/crates (incl. INT64 "
